@@ -61,15 +61,23 @@ def slack3(t: int, reads, thr: int):
 
 
 def slack_tripped_int(t: int, reads, thr: int) -> str:
-    """explaining clause for signatures, on the truncated reading"""
+    """Explaining clause for signatures, on the truncated reading of every
+    recorded read, *in read order*.  What matters for the `check_timestamp not`
+    idiom is whether some read that did NOT trip the slack is followed by one
+    that did (the clock moved backwards during the call: the recorded findings
+    F2 / F3) or only the other way round (it moved forwards: a different
+    situation, which the unchanged code rejects)."""
     if thr <= 0:
         return 'slack_off'
     tr = [t - int(r) >= thr for r in reads]
     if tr and all(tr):
         return 'slack_tripped_on_all_reads'
-    if any(tr):
-        return 'slack_tripped_on_some_reads_only'
-    return 'slack_not_tripped'
+    if not any(tr):
+        return 'slack_not_tripped'
+    first_ok = tr.index(False)
+    if any(tr[first_ok:]):
+        return 'slack_newly_tripped_on_a_later_read'
+    return 'slack_tripped_only_on_earlier_reads'
 
 
 def and3(*vals):
